@@ -23,7 +23,8 @@ _current = None
 
 
 class Injector:
-    def __init__(self, k=None, action='raise', pkg_dir=None, every_thread=False, on_fire=None):
+    def __init__(self, k=None, action='raise', pkg_dir=None, every_thread=False, on_fire=None, extra_files=(),
+                 only_extra=False):
         self.k = k
         self.action = action
         self.count = 0
@@ -38,23 +39,31 @@ class Injector:
             import labtech
             pkg_dir = os.path.dirname(os.path.abspath(labtech.__file__))
         self.pkg_dir = pkg_dir + os.sep
+        self.extra_files = tuple(extra_files)
+        self.only_extra = only_extra
 
     def _cb(self, code, line):
         fn = code.co_filename
         if not fn.startswith(self.pkg_dir):
+            if not (self.extra_files and fn.endswith(self.extra_files)):
+                return sys.monitoring.DISABLE
+        elif self.only_extra:
             return sys.monitoring.DISABLE
         if not self.armed or os.getpid() != self.pid:
             return None
+        if code.co_name == '__del__':
+            return None     # CPython ignores exceptions (also a real KeyboardInterrupt) raised inside __del__
         if not self.every_thread and threading.get_ident() != self.tid:
             return None
         self.count += 1
         if self.k is None:
-            key = (fn[len(self.pkg_dir):], code.co_name)
+            key = ((fn[len(self.pkg_dir):] if fn.startswith(self.pkg_dir) else 'py:' + os.path.basename(fn)), code.co_name)
             self.sites[key] = self.sites.get(key, 0) + 1
             return None
         if self.count == self.k:
             self.armed = False
-            site = {'file': fn[len(self.pkg_dir):], 'func': code.co_name, 'line': line,
+            site = {'file': (fn[len(self.pkg_dir):] if fn.startswith(self.pkg_dir) else 'py:' + os.path.basename(fn)),
+                    'func': code.co_name, 'line': line,
                     'text': linecache.getline(fn, line).strip()[:120], 'k': self.k}
             self.fired = site
             if self.on_fire is not None:
